@@ -169,7 +169,7 @@ def gen_scenario(rng, name, p_async=0.25, p_fwd=0.3, p_typeerror=0.08):
         cid = len(cbs)
         sig = random_sig(rng, max_params=3, p_reserved=0.3)
         sig = [list(p) for p in sig if p[1] != "vk"]
-        vkn = [n for n in ("kwargs", "kw", "rest") if all(p[0] != n for p in sig)][0]
+        vkn = [n for n in ("kwargs", "kw", "rest", "n4") if all(p[0] != n for p in sig)][0]
         sig.append([vkn, "vk", False])
         cbs.append(dict(id=cid, form="func", at=["t", "go", rng.choice(["before", "on", "after"])], sig=sig,
                         is_async=False, name=f"c{cid}"))
